@@ -276,7 +276,7 @@ static int run_hist(const std::string& kind, unsigned seed, int n, int threads, 
             for (size_t i = 0; i < 200; ++i) c->insert(i, 7, 3, 50);
         std::vector<std::vector<HRec>> recs(threads);
         std::atomic<int>               go{0};
-        g_stamp = 1;
+        g_stamp = 100000;
         auto body = [&](int tid) {
             std::mt19937 r(seed * 7919u + h * 104729u + tid);
             go.fetch_add(1);
@@ -299,10 +299,10 @@ static int run_hist(const std::string& kind, unsigned seed, int n, int threads, 
         std::printf("cfg %s %zu %lu %lu 1 2 0 hist %s\n", kind.c_str(), g.cap, (unsigned long)g.ttl_ms, (unsigned long)g.tick_ms, rnd.c_str());
         if (scenario == "poll")
             for (size_t i = 0; i < g.cap; ++i)
-                std::printf("h 99 0 0 %ld ins %zu %zu iu 50 => b1\n", (long)g_now, i, i);
+                std::printf("h 99 %zu %zu %ld ins %zu %zu iu 50 => b1\n", 2 * i + 1, 2 * i + 2, (long)g_now, i, i);
         if (scenario == "bigrange")
             for (size_t i = 0; i < 200; ++i)
-                std::printf("h 99 0 0 %ld ins %zu 7 iu 50 => b1\n", (long)g_now, i);
+                std::printf("h 99 %zu %zu %ld ins %zu 7 iu 50 => b1\n", 2 * i + 1, 2 * i + 2, (long)g_now, i);
         for (auto& v : recs)
             for (auto& r : v)
                 std::printf("h %d %lu %lu %ld %s => %s\n", r.tid, (unsigned long)r.inv, (unsigned long)r.res, (long)g_now, r.op.c_str(), r.out.c_str());
